@@ -1,6 +1,7 @@
 package main
 
 import (
+	"go/types"
 	"sync/atomic"
 	"encoding/json"
 	"flag"
@@ -237,9 +238,64 @@ func realMain() int {
 			units = append(units, unit{sw: s})
 		}
 	}
+	closable := map[string]bool{}
+	for _, fn := range allFns {
+		if !strings.HasPrefix(pkgPathOf(fn), frpPrefix) {
+			continue
+		}
+		for _, b := range fn.Blocks {
+			for _, ins := range b.Instrs {
+				var cc *ssa.CallCommon
+				switch c := ins.(type) {
+				case *ssa.Call:
+					cc = &c.Call
+				case *ssa.Defer:
+					cc = &c.Call
+				case *ssa.Go:
+					cc = &c.Call
+				}
+				if cc == nil {
+					continue
+				}
+				if bi, ok := cc.Value.(*ssa.Builtin); ok && bi.Name() == "close" && len(cc.Args) == 1 {
+					if ct, ok := cc.Args[0].Type().Underlying().(*types.Chan); ok {
+						// closing a channel made in the same function (and not stored into a field) closes no field's channel
+						if mc, isMake := cc.Args[0].(*ssa.MakeChan); isMake {
+							stored := false
+							for _, r := range *mc.Referrers() {
+								if st, ok := r.(*ssa.Store); ok && st.Val == ssa.Value(mc) {
+									if _, ok := st.Addr.(*ssa.FieldAddr); ok {
+										stored = true
+									}
+								}
+							}
+							if !stored {
+								continue
+							}
+						}
+						// closing a channel loaded directly from a struct field marks that field only
+						if ld, isLoad := cc.Args[0].(*ssa.UnOp); isLoad {
+							if fa, isFA := ld.X.(*ssa.FieldAddr); isFA {
+								pt := fa.X.Type().Underlying().(*types.Pointer).Elem()
+								closable["field:"+fieldArrayName(pt, fa.Field)] = true
+								continue
+							}
+						}
+						if localMadeChan(cc.Args[0], fn, 0) {
+							continue
+						}
+						closable[typeKey(ct.Elem())] = true
+					}
+				}
+			}
+		}
+	}
+	if *flagVerbose {
+		fmt.Printf("closable chan elem types: %v\n", sortedKeys(closable))
+	}
 	for _, u := range units {
 		ut0 := time.Now()
-		x := &Run{prog: prog, fset: prog.Fset, d: newDecls(), spec: db, arrSorts: map[string]Sort{}, arrRefEl: map[string]bool{}, maxPaths: *flagMaxPaths, timeout: timeout, maxDepth: 6, trusted: map[string]bool{}, modCache: map[*ssa.Function]*ModSet{}, inlined: map[string]bool{}, opaque: map[string]bool{}}
+		x := &Run{prog: prog, fset: prog.Fset, d: newDecls(), spec: db, arrSorts: map[string]Sort{}, arrRefEl: map[string]bool{}, maxPaths: *flagMaxPaths, timeout: timeout, maxDepth: 6, trusted: map[string]bool{}, modCache: map[*ssa.Function]*ModSet{}, inlined: map[string]bool{}, opaque: map[string]bool{}, closable: closable}
 		ur := &UnitResult{}
 		var finals []*State
 		if u.con != nil {
@@ -513,4 +569,57 @@ func coverCheck(x *Run, finals []*State) string {
 		}
 	}
 	return res
+}
+
+// localMadeChan: v is a local variable (possibly captured) that only ever
+// holds channels made in the declaring function.
+func localMadeChan(v ssa.Value, fn *ssa.Function, depth int) bool {
+	if depth > 3 {
+		return false
+	}
+	ld, ok := v.(*ssa.UnOp)
+	if !ok {
+		return false
+	}
+	switch a := ld.X.(type) {
+	case *ssa.Alloc:
+		return allocOnlyMadeChans(a)
+	case *ssa.FreeVar:
+		parent := fn.Parent()
+		if parent == nil {
+			return false
+		}
+		idx := -1
+		for i, fv := range fn.FreeVars {
+			if fv == a {
+				idx = i
+			}
+		}
+		for _, b := range parent.Blocks {
+			for _, ins := range b.Instrs {
+				if mc, ok := ins.(*ssa.MakeClosure); ok && mc.Fn == ssa.Value(fn) && idx >= 0 && idx < len(mc.Bindings) {
+					switch bb := mc.Bindings[idx].(type) {
+					case *ssa.Alloc:
+						return allocOnlyMadeChans(bb)
+					case *ssa.FreeVar:
+						return localMadeChan(&ssa.UnOp{X: bb}, parent, depth+1)
+					}
+				}
+			}
+		}
+	}
+	return false
+}
+
+func allocOnlyMadeChans(a *ssa.Alloc) bool {
+	n := 0
+	for _, r := range *a.Referrers() {
+		if st, ok := r.(*ssa.Store); ok && st.Addr == ssa.Value(a) {
+			if _, ok := st.Val.(*ssa.MakeChan); !ok {
+				return false
+			}
+			n++
+		}
+	}
+	return n > 0
 }
